@@ -176,6 +176,19 @@ fn main() {
         "conf-battery" => {
             std::process::exit(props::conf::battery_main(args.get(2).map_or("system", String::as_str)));
         }
+        "spaces" => {
+            // gv spaces <ID> <tier>: what the check enumerates (for DESIGN.md)
+            let prop = args.get(2).map_or(String::new(), |s| s.to_uppercase());
+            let tier = args.get(3).cloned().unwrap_or_else(|| "quick".into());
+            if let Some(chk) = props::build(&prop, &tier, seed) {
+                for sp in &chk.spaces {
+                    println!("{}\t{}\t{}", sp.kind, sp.total, sp.desc);
+                }
+                if chk.post.is_some() {
+                    println!("(post phase)\t-\tsee the rule text");
+                }
+            }
+        }
         "list" => {
             for id in props::ALL {
                 println!("{id}");
